@@ -88,6 +88,10 @@ def _plan(case):
             p2, info = progs.apply_edit(cur, ev["edit"], "e%d" % (i + 1))
             if not info["applied"]:
                 continue
+            if not info.get("stmt") and any(f_.get("gdef") == info.get("target") for f_ in progs.fns(p2)):
+                # re-binding a variable that is also a parameter's default leaves the default on the old object: the running
+                # process then differs from any fresh import of the text (Python semantics, not a version-cache matter)
+                continue
             if info.get("stmt") and progs.find(p2, info["target"]).get("late"):
                 continue   # an in-place mutation of a variable that does not exist yet is not an event
             if any(dd["k"] == "alias" and dd["target"] in info["cells"] for dd in p2["defs"]):
@@ -263,11 +267,11 @@ def strategy(thorough):
 
     @st.composite
     def case(draw):
-        p = draw(progs.program_strategy(max_fns=6 if thorough else 5, allow_alias=False, allow_explicit=False, allow_tuplist=True, allow_dictset=True, allow_twins=True, allow_rename=True, allow_nested_refs=True))
+        p = draw(progs.program_strategy(max_fns=6 if thorough else 5, allow_alias=False, allow_explicit=False, allow_tuplist=True, allow_dictset=True, allow_twins=True, allow_rename=True, allow_nested_refs=True, allow_gdef=True))
         # some variables start undefined too (a function in another module then refers to a missing module attribute)
         for dd in p["defs"]:
-            if dd["k"] == "var" and draw(st.integers(0, 3)) == 0:
-                dd["late"] = True
+            if dd["k"] == "var" and draw(st.integers(0, 3)) == 0 and not any(f_.get("gdef") == dd["name"] for f_ in progs.fns(p)):
+                dd["late"] = True   # (not a variable that is some parameter's default: that one must exist when the function is defined)
         # some functions start undefined ("late")
         for dd in progs.fns(p):
             if dd["name"] != "f0" and draw(st.integers(0, 3 if dd["memento"] else 2)) == 0:
